@@ -43,7 +43,7 @@ func init() {
 }
 
 type c17Op struct {
-	Op      string   `json:"op"` // set add replace append prepend delete touch get gete gat sleep
+	Op      string   `json:"op"` // set add replace append prepend delete touch get gete gat sleep close
 	Keys    []string `json:"keys,omitempty"`
 	Data    string   `json:"data,omitempty"`
 	Flags   uint32   `json:"flags,omitempty"`
@@ -365,6 +365,12 @@ func c17RunSeq(d c17Desc) c17SeqResult {
 				time.Sleep(time.Duration(op.SleepMs) * time.Millisecond)
 				continue
 			}
+			if op.Op == "close" {
+				// a connection that used this (shared) backend went away: the server calls Close()
+				// on its handler. Not a command: the map is unaffected (seen by the next step's dump).
+				h.Close()
+				continue
+			}
 			before := time.Now().Unix()
 			req, res, info := cl.exec(op)
 			after := time.Now().Unix()
@@ -498,6 +504,9 @@ func c17GenSeq(r *rig.Rand, name string, expiry bool) c17Desc {
 			d.Ops = append(d.Ops, c17Op{Op: "sleep", SleepMs: ms})
 		}
 		d.Ops = append(d.Ops, c17GenOp(r, keys, expiry))
+		if r.Chance(8) {
+			d.Ops = append(d.Ops, c17Op{Op: "close"})
+		}
 	}
 	return d
 }
@@ -720,6 +729,9 @@ func c17child(e *env) {
 				case 4:
 					h.Prepend(sr)
 				case 5:
+					if r.Chance(2) {
+						h.Close() // some connection went away: harmless for everybody else
+					}
 					if r.Chance(30) {
 						h.Delete(common.DeleteRequest{Key: []byte(k)})
 					} else {
